@@ -7,6 +7,8 @@ import Mathlib.Data.List.Rotate
 import Mathlib.Tactic.Ring
 import Mathlib.Tactic.FieldSimp
 import Mathlib.Tactic.LinearCombination
+import Mathlib.Algebra.Order.Field.Basic
+import Mathlib.Tactic.Linarith
 /-! # C14 — `Path.area()` for paths of ANY number of Line / Quadratic / Cubic segments
 
 The hand model `Model.Area.pathArea` (fold of per-segment closed forms `∫₀¹ x·y' dt`) is bridged, term by term, to
@@ -197,5 +199,87 @@ theorem polygon_closed (first cur : K × K) (qs : List (K × K)) : ClosedFrom fi
 /-- non-vacuity / orientation: the counter-clockwise unit square has area `+1` -/
 example : pathArea (polygonFrom ((0 : ℚ), (0 : ℚ)) (0, 0) [(1, 0), (1, 1), (0, 1)]) = 1 := by
   rw [polygon_shoelace]; norm_num [shoelaceFrom]
+
+/-! ## orientation: counter-clockwise polygons have positive area -/
+section orientation
+variable {K : Type} [Field K] [LinearOrder K] [IsStrictOrderedRing K]
+
+/-- twice the signed area of the triangle `(o, a, b)`: positive iff `o → a → b` turns counter-clockwise -/
+def cross2 (o a b : K × K) : K := (a.1 - o.1) * (b.2 - o.2) - (b.1 - o.1) * (a.2 - o.2)
+
+/-- the triangles of the fan about `first` along the cycle `cur → q₁ → … → first` -/
+def fanTerms (first : K × K) : K × K → List (K × K) → List K
+  | _, [] => []
+  | cur, q :: qs => cross2 first cur q :: fanTerms first q qs
+
+/-- shoelace = fan about the first vertex (the two differ by a telescoping boundary term) -/
+theorem shoelace_eq_fan (first cur : K × K) (qs : List (K × K)) :
+    shoelaceFrom first cur qs = (fanTerms first cur qs).sum + (cur.1 * first.2 - first.1 * cur.2) := by
+  induction qs generalizing cur with
+  | nil => simp [shoelaceFrom, fanTerms]
+  | cons q qs ih =>
+    simp only [shoelaceFrom, fanTerms, List.sum_cons, ih, cross2]
+    ring
+
+theorem sum_nonneg_of (l : List K) (h0 : ∀ x ∈ l, 0 ≤ x) : 0 ≤ l.sum := by
+  induction l with
+  | nil => simp
+  | cons a l ih =>
+    rw [List.sum_cons]
+    have := h0 a (by simp)
+    have := ih (fun y hy => h0 y (by simp [hy]))
+    linarith
+
+theorem sum_map_neg_of (l : List K) : (l.map (fun x => -x)).sum = -l.sum := by
+  induction l with
+  | nil => simp
+  | cons a l ih => simp only [List.map_cons, List.sum_cons, ih]; ring
+
+theorem sum_pos_of (l : List K) (h0 : ∀ x ∈ l, 0 ≤ x) (h1 : ∃ x ∈ l, 0 < x) : 0 < l.sum := by
+  induction l with
+  | nil => obtain ⟨x, hx, _⟩ := h1; simp at hx
+  | cons a l ih =>
+    rw [List.sum_cons]
+    have ha : 0 ≤ a := h0 a (by simp)
+    have hl : 0 ≤ l.sum := sum_nonneg_of l (fun x hx => h0 x (by simp [hx]))
+    obtain ⟨x, hx, hp⟩ := h1
+    rcases List.mem_cons.mp hx with rfl | hx
+    · linarith
+    · have := ih (fun y hy => h0 y (by simp [hy])) ⟨x, hx, hp⟩
+      linarith
+
+/-- **`area()` of a polygon is half the sum of its fan triangles about the first vertex** -/
+theorem polygon_area_fan [CharZero K] (p : K × K) (ps : List (K × K)) :
+    pathArea (polygonFrom p p ps) = (fanTerms p p ps).sum / 2 := by
+  rw [polygon_shoelace, shoelace_eq_fan]; ring
+
+/-- **orientation**: a polygon that is seen counter-clockwise from its first vertex — every fan triangle
+`(p, vᵢ, vᵢ₊₁)` is counter-clockwise or degenerate and at least one is not degenerate; in particular every
+convex polygon traversed counter-clockwise — has positive `area()` -/
+theorem polygon_ccw_area_pos [CharZero K] (p : K × K) (ps : List (K × K))
+    (h0 : ∀ x ∈ fanTerms p p ps, 0 ≤ x) (h1 : ∃ x ∈ fanTerms p p ps, 0 < x) :
+    0 < pathArea (polygonFrom p p ps) := by
+  rw [polygon_area_fan]
+  exact div_pos (sum_pos_of _ h0 h1) (by norm_num)
+
+/-- and clockwise traversal gives a negative area -/
+theorem polygon_cw_area_neg [CharZero K] (p : K × K) (ps : List (K × K))
+    (h0 : ∀ x ∈ fanTerms p p ps, x ≤ 0) (h1 : ∃ x ∈ fanTerms p p ps, x < 0) :
+    pathArea (polygonFrom p p ps) < 0 := by
+  rw [polygon_area_fan]
+  have : 0 < ((fanTerms p p ps).map (fun x => -x)).sum := by
+    apply sum_pos_of
+    · intro x hx; obtain ⟨y, hy, rfl⟩ := List.mem_map.mp hx; linarith [h0 y hy]
+    · obtain ⟨y, hy, hn⟩ := h1; exact ⟨-y, List.mem_map.mpr ⟨y, hy, rfl⟩, by linarith⟩
+  rw [sum_map_neg_of] at this
+  have h2 : (fanTerms p p ps).sum < 0 := by linarith
+  exact div_neg_of_neg_of_pos h2 (by norm_num)
+
+/-- non-vacuity: the counter-clockwise unit square is seen counter-clockwise from its first vertex -/
+example : (∀ x ∈ fanTerms ((0 : ℚ), (0 : ℚ)) (0, 0) [(1, 0), (1, 1), (0, 1)], 0 ≤ x) ∧
+    ∃ x ∈ fanTerms ((0 : ℚ), (0 : ℚ)) (0, 0) [(1, 0), (1, 1), (0, 1)], 0 < x := by
+  simp [fanTerms, cross2]
+
+end orientation
 
 end SvgVerif.Props.C14
